@@ -73,12 +73,18 @@ func (this *DatasetManager) Close() {
 }
 
 func (this *DatasetManager) List(ctx context.Context, withSize bool) ([]*pb.Dataset, error) {
+	// Sizes are asked from other nodes, whose answers wait for their own
+	// catalogue lock: datasetsMu must not be held meanwhile, or two listings
+	// and one catalogue entry block both nodes' apply loops for good.
 	this.datasetsMu.RLock()
-	defer this.datasetsMu.RUnlock()
-
-	i := 0
-	result := make([]*pb.Dataset, len(this.datasets))
+	datasets := make([]*Dataset, 0, len(this.datasets))
 	for _, dataset := range this.datasets {
+		datasets = append(datasets, dataset)
+	}
+	this.datasetsMu.RUnlock()
+
+	result := make([]*pb.Dataset, len(datasets))
+	for i, dataset := range datasets {
 		result[i] = dataset.Meta()
 		if withSize {
 			size, err := dataset.Len(ctx)
@@ -87,7 +93,6 @@ func (this *DatasetManager) List(ctx context.Context, withSize bool) ([]*pb.Data
 			}
 			result[i].Size = size
 		}
-		i++
 	}
 
 	return result, nil
